@@ -1,7 +1,6 @@
 use std::fs::File;
 use std::io::{BufRead, BufReader};
 
-use ignore::WalkBuilder;
 use regex::RegexBuilder;
 use serde::Deserialize;
 use serde_json::json;
@@ -9,7 +8,8 @@ use serde_json::json;
 use crate::{ToolInvocation, ToolOutput};
 
 use super::{
-    build_globset, globsets_match, normalize_rel_path, parse_args, resolve_path, BuiltinToolConfig,
+    build_globset, globsets_match, normalize_rel_path, parse_args, resolve_path,
+    workspace_walk_builder, BuiltinToolConfig,
 };
 
 #[derive(Deserialize)]
@@ -70,7 +70,7 @@ pub(super) fn run_grep(invocation: ToolInvocation, config: &BuiltinToolConfig) -
         Err(err) => return ToolOutput::invalid_args(format!("invalid regex: {err}")),
     };
 
-    let mut builder = WalkBuilder::new(&root_path);
+    let mut builder = workspace_walk_builder(&config.workspace_root, &root_path);
     builder
         .hidden(!include_hidden)
         .follow_links(follow_symlinks);
